@@ -7,7 +7,7 @@ from .architecture import instruction_opcodes
 from .metacommand_impl import get_as_int
 from .containers import CaseInsensitiveDict
 from .deferred import Deferred, SizedDeferred, wait
-from .types import Symbol, ParenthesizedExpression, Number, InstructionPointer, Label
+from .types import Symbol, ParenthesizedExpression, Number, InstructionPointer, Label, CodeBlock
 from . import operators
 from . import reports
 
@@ -369,6 +369,13 @@ class Instruction:
 
 
     def compile_insn(self, state, insn):
+        if insn.operands and isinstance(insn.operands[-1], CodeBlock):
+            reports.error(
+                "wrong-operands",
+                (insn.operands[-1].ctx_start, insn.operands[-1].ctx_end, f"Instruction '{self.name}' does not take a code block")
+            )
+            return None
+
         if len(insn.operands) < len(self.operands):
             reports.error(
                 "wrong-operands",
